@@ -1211,6 +1211,9 @@ impl<C: Config, Q: Query> Snapshot<C, Q> {
     pub(super) async fn done_backward_projection(
         mut self,
         mut backward_projection_lock_guard: BackwardProjectionLockGuard<C>,
+        active_computation_guard: Option<
+            crate::engine::computation_graph::ActiveComputationGuard,
+        >,
     ) {
         let mut tx = self.engine().new_write_transaction();
         let engine = self.engine().clone();
@@ -1232,6 +1235,10 @@ impl<C: Config, Q: Query> Snapshot<C, Q> {
             engine.submit_write_buffer(tx);
 
             backward_projection_lock_guard.done();
+
+            // held until here: no input session may start while the block
+            // above is still writing
+            drop(active_computation_guard);
         }
         .guarded()
         .await;
